@@ -33,7 +33,7 @@ ASSUMPTIONS = [
     "header lines contain ASCII only (the parser opens files in the locale's encoding)",
 ]
 REQUIRED = {"all": ["layouts", "clean_parsed", "corruptions_rejected", "corruptions_still_valid", "second_header_cases",
-                    "star_cases", "same_size_overwrites", "object_battery_compared", "crlf_layouts", "numbered_layouts"]}
+                    "star_cases", "same_size_overwrites", "object_battery_compared", "crlf_layouts", "numbered_layouts", "second_file_object_checked"]}
 NLAYOUT = {"quick": 600, "thorough": 6000}
 NCORR = {"quick": 30, "thorough": 60}
 PANEL = list("*>#-_.,;:!?@$%&/\\|()[]{}<=+~^'\"`") + list("BJOUXZbjouxz") + list("aceg") + ["\t", "\x0c", "\x00", "\x7f", "\n",
@@ -132,7 +132,10 @@ def build_layout(rng, seq):
         lines.append("  * ")
     head = rng.choice(["none", "top", "top", "after_blank"])
     if head != "none":
-        htxt = ">" + "".join(rng.choice("abcXYZ |_-.:*>0123456789ACDEFGHIKLMNPQRSTVWY") for _ in range(rng.randint(0, 40)))
+        hlen = rng.choice([0, 0, 1, rng.randint(0, 40), rng.randint(0, 40)])
+        htxt = ">" + "".join(rng.choice("abcXYZ |_-.:*>0123456789ACDEFGHIKLMNPQRSTVWY") for _ in range(hlen))
+        if rng.random() < 0.1:
+            htxt = ">" + " " * rng.randint(1, 3)          # a header that is only the marker (and blanks)
         if head == "after_blank":
             lines = ["", "  "] + [htxt] + lines
         else:
@@ -252,5 +255,20 @@ def judge(case, rep, S):
             rep.cnt("object_battery_compared")
             if fseq != want or not all(same(x, y) for x, y in zip(b1, b2)):
                 rep.viol("file_object", "object built from the file differs from the object built from %r (sequence %r)" % (want[:80], fseq[:80]))
+            elif kind == "clean":
+                # a second object built from the same file is a new, pristine object: it must not see what was
+                # done to the first one
+                sty = [k + 1 for k, c in enumerate(want) if c in "STY"]
+                fobj.set_phosphosites(sty[:3])
+                pal = {a: "teal" for a in M.AA}
+                fobj.set_HTMLColorResiduePalette(pal)
+                second = S["SP"](sequenceFile=path)
+                fresh = S["SP"](want)
+                rep.cnt("second_file_object_checked")
+                a = (second.get_phosphosites(), second.get_phosphosequence(), second.get_HTMLColorString(), second.get_kappa_after_phosphorylation())
+                b = (fresh.get_phosphosites(), fresh.get_phosphosequence(), fresh.get_HTMLColorString(), fresh.get_kappa_after_phosphorylation())
+                if not all(same(x, y) for x, y in zip(a, b)):
+                    rep.viol("file_objects_share_state", "a second object built from the same file answers %r, a fresh object built from the parsed string %r "
+                             "(the first file-built object had phosphosites %r and a teal palette set)" % (a[:2], b[:2], sty[:3]))
     if rep.evaluations % 40 == 1:
         rep.sample({"layout": info, "file_head": text[:160], "parsed": seq[:60]})
